@@ -229,6 +229,92 @@ fn part_answer(a: &Analysed) -> String {
     )
 }
 
+// ------------------------------------------------------------------------------------------------
+// op `stages`: the input-text plugin stage plugin by plugin (the UTF-8 invariant of `Proofs/PartitionUtf8.lean` and the
+// byte edits of the bundled plugins, `TotalIO.plugin`).  The `ReplaceOp`s of an `InputEditor` are private, so the real
+// edit list is observed through everything `resolve_edits` lets out: the NUMBER of edits (field `replaces_len` of the
+// `verif_tables` hook, read inside `with_editor` after `rewrite_impl` returned), the text and the offset map after the commit,
+// and the offset map the SAME plugin writes when it runs alone on a new buffer holding the text it saw (identity map:
+// first byte of a replacement -> start, later bytes -> end, copied bytes -> themselves; this pair determines what the edit
+// list does on every map).
+
+/// the input-text plugins of a world as C07's configuration record (what a `stages` line ships to the model)
+pub fn world_plugin_cfg(w: &World) -> Option<crate::c07::Cfg> {
+    let v: serde_json::Value = serde_json::from_str(&w.cfg).ok()?;
+    let arr = v.get("inputTextPlugin")?.as_array()?.clone();
+    let def_text = std::fs::read_to_string(w.wd.path.join("rewrite.def")).ok()?;
+    let chars_of = |x: Option<&serde_json::Value>| -> Vec<char> {
+        x.and_then(|a| a.as_array()).map(|a| a.iter().filter_map(|s| s.as_str()).flat_map(|s| s.chars()).collect()).unwrap_or_default()
+    };
+    let mut cfg = crate::c07::Cfg { pipe: vec![], def_text: def_text.clone(), table: None, marks: vec!['ー'], rep: None, yl: vec!['('], yr: vec![')'], yn: 1, pool: vec![] };
+    // every character of the table (keys, values, exempt characters) needs its Unicode facts on the line
+    let table_chars: String = def_text.lines().filter(|l| !l.trim_start().starts_with('#')).flat_map(|l| l.chars()).filter(|c| !c.is_whitespace()).collect();
+    cfg.table = Some((vec![], vec![(table_chars, String::new())]));
+    for pl in &arr {
+        let class = pl.get("class")?.as_str()?;
+        if class.ends_with("DefaultInputTextPlugin") { cfg.pipe.push('D'); }
+        else if class.ends_with("ProlongedSoundMarkPlugin") {
+            cfg.pipe.push('P');
+            cfg.marks = chars_of(pl.get("prolongedSoundMarks"));
+            cfg.rep = pl.get("replacementSymbol").and_then(|r| r.as_str()).map(|r| r.to_string());
+        }
+        else if class.ends_with("IgnoreYomiganaPlugin") {
+            cfg.pipe.push('Y');
+            cfg.yl = chars_of(pl.get("leftBrackets"));
+            cfg.yr = chars_of(pl.get("rightBrackets"));
+            cfg.yn = pl.get("maxYomiganaLength").and_then(|n| n.as_u64()).unwrap_or(4) as usize;
+        }
+        else { return None; }
+    }
+    Some(cfg)
+}
+
+pub struct StageObs {
+    /// number of `ReplaceOp`s the plugin recorded
+    pub n: usize,
+    pub cur: Vec<u8>,
+    pub m2o: Vec<usize>,
+    /// the offset map of the plugin alone over the identity map of the text it saw (None: a new buffer refuses that text)
+    pub alone: Option<Vec<usize>>,
+}
+
+/// reset / push_str / start_build / every plugin with its commit on a new buffer; Err = a panic
+pub fn real_stages(dic: &sudachi::dic::dictionary::JapaneseDictionary, text: &str) -> Result<(Vec<StageObs>, String), String> {
+    use sudachi::input_text::InputBuffer;
+    use sudachi::analysis::stateless_tokenizer::DictionaryAccess;
+    catch(|| {
+        let mut out = vec![];
+        let mut buf = InputBuffer::new();
+        buf.reset().push_str(text);
+        if let Err(e) = buf.start_build() { return (out, err_class(&e)); }
+        for p in dic.input_text_plugins().iter() {
+            let before = buf.current().to_string();
+            // what `InputTextPlugin::rewrite` does, with a look at the recorded edits before the commit
+            if p.uses_chars() { buf.refresh_chars(); }
+            let n = std::cell::Cell::new(0usize);
+            #[allow(deprecated)]
+            let r = buf.with_editor(|b, e| { let e = p.rewrite_impl(b, e)?; n.set(b.verif_tables().replaces_len); Ok(e) });
+            if let Err(e) = r { return (out, err_class(&e)); }
+            let alone = {
+                let mut b2 = InputBuffer::new();
+                b2.reset().push_str(&before);
+                if b2.start_build().is_err() || p.rewrite(&mut b2).is_err() { None } else { Some(b2.verif_tables().m2o) }
+            };
+            let t = buf.verif_tables();
+            out.push(StageObs { n: n.get(), cur: buf.current().as_bytes().to_vec(), m2o: t.m2o, alone });
+        }
+        (out, "done".to_string())
+    })
+}
+
+fn stages_answer(st: &[StageObs], end: &str) -> String {
+    format!("ok {} end={}",
+        st.iter().map(|s| format!("{}/{}/{}/{}/{}", s.n, hex(&s.cur), join(s.m2o.iter(), ","),
+            match &s.alone { Some(m) => join(m.iter(), ","), None => "-".to_string() },
+            if std::str::from_utf8(&s.cur).is_ok() { "utf8" } else { "NOT-UTF8" })).collect::<Vec<_>>().join(";"),
+        if end == "done" { "done".to_string() } else if end.contains("TooLong") || end.contains("InputTooLong") { "TooLong".to_string() } else { format!("err:{}", end) })
+}
+
 fn width_counters(run: &mut Run, text: &str) {
     let mut w = [0u64; 5];
     for c in text.chars() { w[c.len_utf8()] += 1; }
@@ -263,13 +349,20 @@ texts of other lengths before) + dictionary look-ups (MorphemeList::lookup, spli
 morpheme comes from a split/merge; distinct by line".into();
     let n = run.opts.count;
     let mut cur_world: Option<(usize, Result<World, String>)> = None;
+    // per world: C07's record of its input-text plugins, the characters of that configuration, the set-up tokens of a `stages` line
+    let mut cur_plug: Option<(usize, Option<(crate::c07::Cfg, std::collections::BTreeSet<char>, String)>)> = None;
+    run.bump(&format!("model-variant:commit={}", crate::c03::commit_variant()));
     for idx in 0..n {
         if !run.wants(idx) { continue; }
         let widx = idx / CASES_PER_WORLD;
         if cur_world.as_ref().map(|w| w.0) != Some(widx) {
             cur_world = None; // drop the previous work directory first
             // every 12th world is loaded with the maximum number of dictionaries; two worlds in three declare units that are unrelated words
-            let opts = WorldOpts { users_exact: if widx % 12 == 5 { Some(14) } else { None }, unrelated_units: widx % 3 != 0, ..WorldOpts::default() };
+            // every second world adds keys to rewrite.def that texts WITHOUT upper-case / non-NFKC characters contain (such texts take
+            // `replace_fast`; no key of the shipped table can match there): longer, shorter and equal-width replacements, a key that is a
+            // prefix of another one, 1-byte and 3-byte characters
+            let extra = if widx % 2 == 1 { Some("京都 きょうと\n京 ｹｲ\nイウ ユ\n円 yen\n, 、\n東 ひがし\n12 十二\nかも duck\nab x\n".to_string()) } else { None };
+            let opts = WorldOpts { users_exact: if widx % 12 == 5 { Some(14) } else { None }, unrelated_units: widx % 3 != 0, rewrite_extra: extra, ..WorldOpts::default() };
             cur_world = Some((widx, world_for(run.opts.seed, &run.prop.clone(), widx, &opts)));
         }
         let w = match &cur_world.as_ref().unwrap().1 {
@@ -279,6 +372,15 @@ morpheme comes from a split/merge; distinct by line".into();
                 continue;
             }
         };
+        if cur_plug.as_ref().map(|p| p.0) != Some(widx) {
+            let pc = world_plugin_cfg(w).map(|c7| {
+                let chars = crate::c07::cfg_chars(&c7);
+                let toks = crate::c07::setup_payload(&c7, crate::c07::impl_earliest()).replace(" def=", " rwdef=");
+                (c7, chars, toks)
+            });
+            if pc.is_none() { run.bump("stages:world-configuration-not-representable"); }
+            cur_plug = Some((widx, pc));
+        }
         let mut rng = Rng::for_case(run.opts.seed, idx);
         let k = idx % CASES_PER_WORLD;
         let split_rows: Vec<&Row> = w.lex.rows.iter().filter(|r| r.indexed() && (r.split_a != "*" || r.split_b != "*")).collect();
@@ -304,6 +406,12 @@ morpheme comes from a split/merge; distinct by line".into();
                 let head = if rng.chance(1, 2) { "あ".repeat(21846 + rng.below(40)) } else { "𠮷".repeat(16390 + rng.below(40)) };
                 format!("{}{}", head, gen_text(&mut rng, w, 6))
             }
+            else if k == CASES_PER_WORLD - 3 && widx % 4 == 1 {
+                // 2000+ ligatures of 3 bytes that NFKC turns into 33 bytes each: the default plugin's batch would give more than
+                // 65535 bytes and its commit is refused (`InputTooLong` out of the plugin stage); without that plugin the text passes
+                run.bump("text:nfkc-expansion-beyond-65535-bytes");
+                format!("{}{}", "\u{FDFA}".repeat(2000 + rng.below(40)), gen_text(&mut rng, w, 6))
+            }
             else { gen_text(&mut rng, w, 14) };
         if k < DIRECTED.len() { run.bump("text:directed"); }
         let mode = mode_of(rng.below(3));
@@ -327,6 +435,39 @@ morpheme comes from a split/merge; distinct by line".into();
         };
         run.bump(&format!("setup:{}:mode-{:?}", match setup { Setup::New => "all-fields".to_string(), Setup::SubsetThenMode(s) => format!("set_subset({:#x})-then-set_mode", s.bits()), Setup::ModeThenSubset(s) => format!("set_mode-then-set_subset({:#x})", s.bits()) }, mode));
         let ctx = |what: &str| format!("{} | text={:?} mode={:?} setup={:?} earlier texts on the same tokenizer={:?} world={}", what, text, mode, setup, warm, w.desc.join(" "));
+        // the plugin stage, plugin by plugin, on a new bare buffer: model = Stages.trace (Total.rewriteInput with a record)
+        let mut final_stage: Option<(Vec<u8>, Vec<usize>)> = None;
+        if let (true, Some((_c7, chars0, setup_toks))) = (text.len() <= 8000, &cur_plug.as_ref().unwrap().1) {
+            let mut chars = chars0.clone();
+            chars.extend(text.chars());
+            let uni = crate::c07::facts_for(&chars, &crate::c07::Classes { dic: &w.dic });
+            let payload = format!("orig={} {} uni={} commit={}", hex(text.as_bytes()), setup_toks, uni, crate::c03::commit_variant());
+            match real_stages(&w.dic, &text) {
+                Err(p) => {
+                    run.bump("stages:panic");
+                    run.case(idx, "stages", &payload, "PANIC", true);
+                    run.fail(idx, "c01:stage-panic", &ctx(&format!("an input-text plugin or its commit panicked on a bare buffer: {}", p.chars().take(160).collect::<String>())));
+                }
+                Ok((st, end)) => {
+                    run.bump(&format!("stages:plugins-run:{}", st.len()));
+                    run.bump(&format!("stages:end:{}", end.chars().take(12).collect::<String>()));
+                    let nedits: usize = st.iter().map(|s| s.n).sum();
+                    run.bump(&format!("stages:edits:{}", match nedits { 0 => "0", 1 => "1", 2..=4 => "2-4", _ => "5+" }));
+                    if st.iter().filter(|s| s.n > 0).count() >= 2 { run.bump("stages:two-or-more-plugins-edit-the-text"); }
+                    if st.iter().any(|s| s.n > 0 && s.cur.is_empty()) { run.bump("stages:a-plugin-deletes-the-whole-text"); }
+                    run.case(idx, "stages", &payload, &stages_answer(&st, &end), nedits > 0);
+                    for (i, s) in st.iter().enumerate() {
+                        // the invariant of Proofs/PartitionUtf8.lean on the real buffer: valid UTF-8 after every plugin, map of length+1
+                        if std::str::from_utf8(&s.cur).is_err() { run.fail(idx, "c01:stage-utf8", &ctx(&format!("the text after input-text plugin {} is not valid UTF-8: {}", i, hex(&s.cur)))); }
+                        if s.m2o.len() != s.cur.len() + 1 { run.fail(idx, "c01:stage-map-length", &ctx(&format!("after plugin {}: {} map entries for {} bytes", i, s.m2o.len(), s.cur.len()))); }
+                        if s.n == 0 && i > 0 && s.cur != st[i - 1].cur { run.fail(idx, "c01:stage-no-edit-changed-text", &ctx(&format!("plugin {} recorded no edit but the text changed", i))); }
+                    }
+                    if end == "done" {
+                        final_stage = Some(match st.last() { Some(s) => (s.cur.clone(), s.m2o.clone()), None => (text.as_bytes().to_vec(), (0..=text.len()).collect()) });
+                    }
+                }
+            }
+        }
         match analyse_staged(&w.dic, &warm, &text, mode, setup) {
             Staged::TokenizePanic(p) => {
                 run.bump("outcome:panic-while-tokenising(C03)");
@@ -361,6 +502,12 @@ morpheme comes from a split/merge; distinct by line".into();
                 run.case(idx, "morph", &payload, &ans, a.morphs.len() >= 2 && changed);
                 if let Some((k, what)) = partition_oracle(&text, &a) {
                     run.fail(idx, &format!("c01:{}", k), &ctx(&what));
+                }
+                // the text and the offset map the (possibly recycled) tokenizer analysed are those of the staged run on a new buffer
+                if let Some((c, m)) = &final_stage {
+                    if c.as_slice() != a.tables.modified.as_bytes() || m != &a.tables.m2o {
+                        run.fail(idx, "c01:stages-vs-tokenizer", &ctx(&format!("the tokenizer analysed text {} / map {:?}, the plugins on a new buffer give {} / {:?}", hex(a.tables.modified.as_bytes()), a.tables.m2o, hex(c), m)));
+                    }
                 }
                 // the same observation COMPUTED by the model from the path before split_path (resolve_best_path's byte ranges,
                 // split_path / NodeSplitIterator::next, every accessor incl. begin_c/end_c)
